@@ -837,12 +837,15 @@ func (h *handler) handleClose(ctx context.Context) {
 		// when the router is closing, Run cancels ctx as well and select may pick this case
 		select {
 		case <-h.routersCloseCh:
+			verifhook.At("router.handler.handleclose.closing_after_ctx", h.name)
 			h.logger.Debug("Waiting for subscriber to close", nil)
 			if err := h.subscriber.Close(); err != nil {
 				h.logger.Error("Failed to close subscriber", err, nil)
 			}
 			h.logger.Debug("Subscriber closed", nil)
+			verifhook.At("router.handler.handleclose.sub_closed", h.name)
 		default:
+			verifhook.At("router.handler.handleclose.not_closing", h.name)
 		}
 	}
 	verifhook.At("router.handler.handleclose.stop", h.name)
